@@ -192,6 +192,12 @@ def step (st : St) (cmd : String) (args : List String) : St × String :=
       | some none => (st, "None")
       | none => bad
     | none => bad
+  | "items", [tg] =>
+    match parseTarget tg with
+    | some tg =>
+      let its := (itemsOf (w.trieOf tg).tree).map fun e => s!"{pathStr e.1}={toHex e.2}"
+      (st, joinOr its ";")
+    | none => bad
   | "preorder", [tg] =>
     match parseTarget tg with
     | some tg =>
